@@ -41,6 +41,9 @@ func lookupExternal(fn *ssa.Function, name string) externalFn {
 		if e, ok := verifPrims[fn.Name()]; ok {
 			return e
 		}
+		if e, ok := verifPrimsExtra[fn.Name()]; ok {
+			return e
+		}
 	}
 	// package initialisers of skipped packages
 	if fn.Name() == "init" && fn.Pkg != nil && fn.Signature.Recv() == nil && fn.Parent() == nil {
@@ -87,6 +90,7 @@ func (i *Interp) panicString(p targetPanic) string {
 }
 
 var verifPrims map[string]externalFn
+var verifPrimsExtra = map[string]externalFn{}
 
 func symOfKind(fr *frame, id value, w uint8, kind types.BasicKind) value {
 	ex := fr.i.ex
